@@ -64,7 +64,7 @@ pub(crate) fn strand_json<I: Interner>(s: &CanonicalStrand<I>) -> String {
     };
     let _ = write!(
         out,
-        "],\"sel\":{},\"selT\":{},\"selA\":{},\"last\":{},\"amb\":{},\"atime\":{},\"sub\":\"{}\",\"ncon\":{}}}",
+        "],\"sel\":{},\"selT\":{},\"selA\":{},\"last\":{},\"amb\":{},\"atime\":{},\"sub\":\"{}\",\"ncon\":{},\"ref\":{}}}",
         sel,
         sel_t,
         sel_a,
@@ -72,7 +72,8 @@ pub(crate) fn strand_json<I: Interner>(s: &CanonicalStrand<I>) -> String {
         ex.ambiguous,
         ts(ex.answer_time),
         fp(&(&s.binders, &ex.subst, &ex.constraints)),
-        ex.constraints.len()
+        ex.constraints.len(),
+        st.refinement
     );
     out
 }
